@@ -313,6 +313,26 @@ func (c08) Exec(c *sim.Case, env *Env) []sim.Violation {
 		} else if g := len(ds.D.Body.GetTables()); g != nt {
 			w.Fail("list-model", "GetTables:count", fmt.Sprintf("GetTables returns %d, the model has %d tables", g, nt))
 		}
+		// ... and hold, in order, the very objects the list holds (a view that answers from an earlier state of the body has the right length after a removal and an addition)
+		if gp, gt := ds.D.Body.GetParagraphs(), ds.D.Body.GetTables(); len(gp) == np && len(gt) == nt {
+			pi, ti := 0, 0
+			for i := range real {
+				switch real[i].kind {
+				case "p":
+					if any(gp[pi]) != real[i].ptr {
+						w.Fail("list-model", "GetParagraphs:identity", fmt.Sprintf("after %s%v GetParagraphs()[%d] is not the paragraph at element %d of the body", op.K, op.I, pi, i))
+						return
+					}
+					pi++
+				case "tbl":
+					if any(gt[ti]) != real[i].ptr {
+						w.Fail("list-model", "GetTables:identity", fmt.Sprintf("after %s%v GetTables()[%d] is not the table at element %d of the body", op.K, op.I, ti, i))
+						return
+					}
+					ti++
+				}
+			}
+		}
 		w.Log.Event("model %s", sim.Digest([]byte(m.String())))
 	}
 	obs.onSave = func(w *world.World, ds *world.Doc, b []byte) []sim.Violation {
